@@ -25,6 +25,10 @@ ALIASES = {
 OPS = "".join(ALIASES)
 
 
+DEFAULT_OFF = {"curly"}      # brace-for-angle annotation repair exists on the lenient WRITE path only
+_ANNOT = re.compile(r"([A-Za-z_][A-Za-z0-9_]*)<([A-Za-z_][A-Za-z0-9_]*)>\Z")
+
+
 @dataclass
 class Rendered:
     text: str
@@ -52,6 +56,8 @@ class _R:
 
     # -------------------------------------------------- choice points
     def pick(self, kind: str, nopt: int) -> int:
+        if kind in DEFAULT_OFF and (self.enabled is None or kind not in self.enabled):
+            return 0          # opt-in site kinds are invisible unless explicitly enabled
         sid = self.n
         self.n += 1
         self.sites.append((sid, kind, nopt))
@@ -93,10 +99,15 @@ class _R:
                 return [(text, None)]
             if any(c in OPS for c in text):
                 return self.v_ops(text, quoted_aware=False)
+            m = _ANNOT.match(text)
+            if m and self.pick("curly", 2) == 1:
+                cur = m.group(1) + "{" + m.group(2) + "}"
+                return [(cur, ("curly", cur, text))]
             return [(text, None)]
         # quoted form
         opts = 1
-        triple_ok = '"' not in text and "\\" not in text and "\t" not in text
+        # inside triple quotes newlines and inner quotes are raw; backslash and tab are escaped as in "..."
+        triple_ok = '"""' not in text and not text.endswith('"') and '""' not in text
         words_ok = allow_multiword and bool(_WORDS.match(text)) and not any(w in RESERVED for w in text.split(" "))
         kinds = ["q"]
         if triple_ok:
@@ -108,7 +119,8 @@ class _R:
         if kind == "q":
             return [('"' + esc(text) + '"', None)]
         if kind == "triple":
-            return [('"""' + text + '"""', ("normalization", '"""', text))]
+            body = text.replace("\\", "\\\\").replace("\t", "\\t")
+            return [('"""' + body + '"""', ("normalization", '"""', text))]
         words = text.split(" ")
         return [(text, ("multi_word_coalesce", words, text))]
 
@@ -199,7 +211,7 @@ class _R:
                 segs.append((kk + "::", None))
                 segs += self.inline_any(vv)
             return segs
-        return self.v_inline(it, in_list=True)
+        return self.v_inline(it, allow_multiword=True, in_list=True)
 
     # -------------------------------------------------- nodes
     def assign_op(self):
@@ -210,9 +222,14 @@ class _R:
         o = self.pick("trailing_space", 2)
         return [("  ", None)] if o else []
 
-    def blank(self):
-        if self.pick("blank_before", 2):
+    def blank(self, cols=0):
+        o = self.pick("blank_before", 4)
+        if o == 1:
             self.line([])
+        elif o == 2:
+            self.line([(" ", None)])                 # whitespace-only line, fewer spaces than the indent
+        elif o == 3:
+            self.line([(" " * (cols + 3), None)])    # whitespace-only line, more spaces than the indent
 
     def comments(self, lead, cols):
         for c in lead:
@@ -249,12 +266,12 @@ class _R:
         k = n[0]
         if k == "A":
             _, key, v, lead, trail = n
-            self.blank()
+            self.blank(cols)
             self.comments(lead, cols)
             self.kv(key, v, cols, trail)
         elif k == "B":
             _, key, target, children, lead = n
-            self.blank()
+            self.blank(cols)
             self.comments(lead, cols)
             head = " " * cols + key
             segs = [(head, None)]
@@ -265,7 +282,7 @@ class _R:
             self.children(children, cols)
         elif k == "S":
             _, sid, name, ann, children, lead = n
-            self.blank()
+            self.blank(cols)
             self.comments(lead, cols)
             segs = [(" " * cols, None)] + self.v_ops("§", False) + [(sid + "::" + name, None)]
             if ann:
